@@ -614,25 +614,88 @@ func ruleTransactionFilterSides(c *core.Ctx) {
 			if p != "reverted" {
 				continue
 			}
-			// value true -> "is not null"
-			ok := false
+			// value true -> "is not null", false -> "is null"; two spellings are read: the text is
+			// extended with " not" under the flag, or each side returns its own constant
+			isFlag := func(e ast.Expr) bool {
+				ta, isTA := ast.Unparen(e).(*ast.TypeAssertExpr)
+				if !isTA {
+					return false
+				}
+				t := info.TypeOf(ta.Type)
+				b, isB := t.(*types.Basic)
+				return isB && b.Kind() == types.Bool
+			}
+			formA := 0
 			ast.Inspect(a.Clause, func(n ast.Node) bool {
 				is, isIf := n.(*ast.IfStmt)
 				if !isIf {
 					return true
 				}
-				if ta, isTA := ast.Unparen(is.Cond).(*ast.TypeAssertExpr); isTA && astx.SelectorPath(ta.X) == "value" {
-					for _, st := range is.Body.List {
-						if as, isAs := st.(*ast.AssignStmt); isAs && as.Tok == token.ADD_ASSIGN {
-							if s, isS := astx.ConstString(info, as.Rhs[0]); isS && strings.TrimSpace(s) == "not" {
-								ok = true
+				cond, neg := ast.Unparen(is.Cond), false
+				if u, isU := cond.(*ast.UnaryExpr); isU && u.Op == token.NOT {
+					cond, neg = ast.Unparen(u.X), true
+				}
+				if !isFlag(cond) {
+					return true
+				}
+				for _, st := range is.Body.List {
+					if as, isAs := st.(*ast.AssignStmt); isAs && as.Tok == token.ADD_ASSIGN {
+						if s, isS := astx.ConstString(info, as.Rhs[0]); isS && strings.TrimSpace(s) == "not" {
+							if neg {
+								formA = -1
+							} else if formA == 0 {
+								formA = 1
 							}
 						}
 					}
 				}
 				return true
 			})
-			c.Check(ok, "SQLS/reverted-filter", "transactions:reverted", pos(c, a.Clause), "reverted=true → reverted_at is not null", "the reverted filter no longer maps true to `reverted_at is not null` and false to `is null`")
+			posOK, negOK, inverted := false, false, false
+			ast.Inspect(a.Clause, func(n ast.Node) bool {
+				r, isR := n.(*ast.ReturnStmt)
+				if !isR || len(r.Results) == 0 {
+					return true
+				}
+				txt, isConst := constStr(info, r.Results[0])
+				if !isConst {
+					return true
+				}
+				low := strings.ToLower(strings.Join(strings.Fields(txt), " "))
+				hasNot := strings.Contains(low, "is not null")
+				hasNull := strings.Contains(low, "is null") || hasNot
+				if !hasNull {
+					return true
+				}
+				sign := 0
+				for _, ft := range astx.FactsAt(info, &ast.BlockStmt{Lbrace: a.Clause.Pos(), List: a.Clause.Body, Rbrace: a.Clause.End()}, r.Pos()) {
+					if isFlag(ft.Cond) {
+						if ft.Positive {
+							sign = 1
+						} else {
+							sign = -1
+						}
+					}
+				}
+				switch {
+				case sign > 0 && hasNot:
+					posOK = true
+				case sign < 0 && !hasNot:
+					negOK = true
+				case sign != 0:
+					inverted = true
+				}
+				return true
+			})
+			failMsg := "the reverted filter no longer maps true to `reverted_at is not null` and false to `is null`"
+			switch {
+			case formA < 0 || inverted:
+				c.Fail("SQLS/reverted-filter", "transactions:reverted", pos(c, a.Clause), failMsg+" (the two sides are swapped)")
+			case formA > 0 || (posOK && negOK):
+				c.Pass("SQLS/reverted-filter", "transactions:reverted", pos(c, a.Clause), "reverted=true → reverted_at is not null")
+			default:
+				c.Unrecognised("SQLS/reverted-filter", "transactions:reverted", pos(c, a.Clause), "the reverted filter is not written in a shape the rule reads")
+			}
 		}
 	}
 }
